@@ -907,6 +907,10 @@ pub enum ParamTemplate {
     /// recursive parametric reference inside `depth` nested groups (`p::_ : "a" ("c" ("d" p::incr(_)))`):
     /// the groups become single-rule symbols that the optimiser inlines into one another
     Grouped { k: u8, depth: u8 },
+    /// `start: "z" | p::0 | "k" p::1 | "m" p::2 | "n" p::3`, `p::_ : "<" q::_ ">"` (q referenced once, with `_`),
+    /// `q::_ :` 1..4 alternatives (literal or empty, each under a condition from a small table): single guarded
+    /// rules, several nullability clauses for one symbol, or-conditions
+    Guarded { alts: Vec<(u8, u8)>, consts: u8 },
 }
 
 const LETTERS: &[&str] = &["a", "b", "c", "d", "e", "f"];
@@ -1053,6 +1057,58 @@ impl ParamTemplate {
                 pb.prods.push(Prod { lhs: 1, rhs, cond });
                 pb.alt(false, "p", 1, "b", None, Cond::True);
             }
+            ParamTemplate::Guarded { alts, consts } => {
+                n_nts = 3;
+                names.push("q".into());
+                // the generic "start: p::0x0" written by the prologue is replaced
+                pb.lark.clear();
+                pb.prods.clear();
+                pb.lark.push_str("start: \"z\"");
+                pb.prods.push(Prod { lhs: 0, rhs: lit("z"), cond: Cond::True });
+                for (i, pre) in ["", "k", "m", "n"].iter().enumerate() {
+                    if consts & (1 << i) == 0 {
+                        continue;
+                    }
+                    let mut rhs = lit(pre);
+                    rhs.push(BSym::Nt(1, PExpr::Const(i as u64)));
+                    if pre.is_empty() {
+                        pb.lark.push_str(&format!(" | p::{:#x}", i));
+                    } else {
+                        pb.lark.push_str(&format!(" | {:?} p::{:#x}", pre, i));
+                    }
+                    pb.prods.push(Prod { lhs: 0, rhs, cond: Cond::True });
+                }
+                pb.lark.push('\n');
+                pb.lark.push_str("p::_ : \"<\" q::_ \">\"\n");
+                let mut rhs = lit("<");
+                rhs.push(BSym::Nt(2, PExpr::SelfRef));
+                rhs.extend(lit(">"));
+                pb.prods.push(Prod { lhs: 1, rhs, cond: Cond::True });
+                let cond_of = |c: u8| match c % 8 {
+                    0 => Cond::True,
+                    1 => Cond::BitSet(0),
+                    2 => Cond::BitSet(1),
+                    3 => Cond::BitClear(0),
+                    4 => Cond::BitClear(1),
+                    5 => Cond::Or(Box::new(Cond::BitSet(0)), Box::new(Cond::BitSet(1))),
+                    6 => Cond::And(Box::new(Cond::BitSet(0)), Box::new(Cond::BitSet(1))),
+                    _ => Cond::Not(Box::new(Cond::BitSet(1))),
+                };
+                // the engine rejects a parametric rule whose body never looks at the parameter
+                let mut alts = alts.clone();
+                if alts.iter().all(|(_, c)| c % 8 == 0) {
+                    alts[0].1 = 1;
+                }
+                for (i, (l, c)) in alts.iter().enumerate() {
+                    let l = match l % 4 {
+                        0 => "",
+                        1 => "a",
+                        2 => "b",
+                        _ => "d",
+                    };
+                    pb.alt(i == 0, "q", 2, l, None, cond_of(*c));
+                }
+            }
             ParamTemplate::Toggle(n) => {
                 // letter k toggles bit k: set when clear, clear when set; stop when bit 0 set or all zero
                 for k in 0..*n {
@@ -1100,6 +1156,8 @@ pub fn param_template() -> impl Strategy<Value = ParamTemplate> {
         (2u8..=3).prop_map(ParamTemplate::Toggle),
         (1u8..=5, 0u8..3).prop_map(|(k, op)| ParamTemplate::AliasChain { k, op }),
         (1u8..=4, 1u8..=3).prop_map(|(k, depth)| ParamTemplate::Grouped { k, depth }),
+        (proptest::collection::vec((0u8..4, 0u8..8), 1..=4), 1u8..16).prop_map(|(alts, consts)| ParamTemplate::Guarded { alts, consts }),
+        (proptest::collection::vec((0u8..2, 1u8..8), 1..=3), 1u8..16).prop_map(|(alts, consts)| ParamTemplate::Guarded { alts, consts }),
     ]
 }
 
@@ -1213,7 +1271,7 @@ impl CfgCase {
 pub fn cfg_case() -> BoxedStrategy<CfgCase> {
     prop_oneof![
         5 => cfg_strategy().prop_map(CfgCase::Plain),
-        1 => param_template().prop_map(CfgCase::Param),
+        2 => param_template().prop_map(CfgCase::Param),
     ]
     .boxed()
 }
